@@ -246,6 +246,11 @@ func (t *loopTr) mapTable(x *ast.IndexExpr) (tbl, zero string, ok bool, err erro
 	if !isId {
 		return bad("not a package-level map")
 	}
+	if t.lp.core {
+		if tbl, zero, ok, err := t.localMap(x, id); ok || err != nil {
+			return tbl, zero, ok, err
+		}
+	}
 	v, isVar := info.ObjectOf(id).(*types.Var)
 	if !isVar || v.Parent() != t.cp.pkg.Scope() {
 		return bad("not a package-level map")
@@ -357,7 +362,11 @@ func (t *loopTr) regexpVar(v *types.Var, method, typ string) string {
 func (t *loopTr) prevVars(callee *loopFn) []string {
 	var out []string
 	for _, v := range callee.vars {
-		ex := t.lp.before.externs[v]
+		from := t.lp.before
+		if callee.from != nil {
+			from = callee.from
+		}
+		ex := from.externs[v]
 		if ex == nil {
 			problems = append(problems, fmt.Sprintf("error parse:%s: %s of Gen/Loops depends on %s, whose declaration is not known", t.cp.tgt.mod, callee.fi.name, v))
 			continue
@@ -403,11 +412,20 @@ func (t *loopTr) libOracle(x *ast.CallExpr, fn *types.Func, q string) (string, b
 func (t *loopTr) oracleSig(x *ast.CallExpr, fn *types.Func, q string) (name, typ string, nvals int, err error) {
 	sig := fn.Type().(*types.Signature)
 	if sig.TypeParams().Len() > 0 || sig.Variadic() || sig.Recv() != nil || fn.Pkg() == nil ||
-		strings.Contains(strings.SplitN(fn.Pkg().Path(), "/", 2)[0], ".") {
+		(strings.Contains(strings.SplitN(fn.Pkg().Path(), "/", 2)[0], ".") && !t.lp.core) {
 		return "", "", 0, t.errAt(x, "call of %s", q)
 	}
 	var ts []string
 	for i := 0; i < sig.Params().Len(); i++ {
+		if sg, isFn := sig.Params().At(i).Type().Underlying().(*types.Signature); isFn && t.lp.core {
+			// core.go: a function argument of a library oracle is a pure function
+			ct, e := t.cp.pureFuncType(sg)
+			if e != nil {
+				return "", "", 0, t.errAt(x, "call of %s (parameter of %s)", q, e.Error())
+			}
+			ts = append(ts, "("+ct+")")
+			continue
+		}
 		ct, e := t.cp.trType(sig.Params().At(i).Type())
 		if e != nil {
 			return "", "", 0, t.errAt(x, "call of %s (parameter of %s)", q, e.Error())
@@ -592,6 +610,16 @@ func (t *loopTr) sprintf(x *ast.CallExpr) (string, bool, error) {
 			}
 			parts = append(parts, app("dec_z", s))
 		default:
+			if t.lp.core {
+				if s, ok, err := t.coreVerb(x, f[i], a); ok || err != nil {
+					if err != nil {
+						return "", false, err
+					}
+					flush()
+					parts = append(parts, s)
+					continue
+				}
+			}
 			return fail(fmt.Sprintf("verb %%%c on %s", f[i], types.TypeString(info.TypeOf(a), types.RelativeTo(t.cp.pkg))))
 		}
 	}
@@ -619,6 +647,11 @@ type optCall struct {
 // optCallOf: a call whose last result is an error, as an option value (nil: not such a call)
 func (t *loopTr) optCallOf(call *ast.CallExpr) (*optCall, error) {
 	info := t.cp.info
+	if t.lp.core {
+		if oc, ok, err := t.coreOptCall(call); ok || err != nil {
+			return oc, err
+		}
+	}
 	if fn := t.localFunc(call); fn != nil {
 		callee := t.lp.byObj[fn.Origin()]
 		if callee == nil || !callee.fi.errRes {
@@ -891,6 +924,8 @@ func (t *loopTr) parseAssign(x *ast.AssignStmt, target func(ast.Expr) (string, e
 	// the failing arm first: the values Go assigns there are not modelled
 	sv := t.saveTrack()
 	var escape []string
+	zeroLets := ""
+	zeros := t.lp.core && t.zeroOnErr(call)
 	for _, l := range x.Lhs[:oc.nvals] {
 		id, ok := l.(*ast.Ident)
 		if !ok {
@@ -900,6 +935,17 @@ func (t *loopTr) parseAssign(x *ast.AssignStmt, target func(ast.Expr) (string, e
 			continue
 		}
 		o := info.ObjectOf(id)
+		if zeros {
+			// core.go: every failing return of the callee returns zero values: they are what Go assigns here
+			if z, err := t.cp.zero(o.Type()); err == nil {
+				n, err := target(l)
+				if err != nil {
+					return fail(err)
+				}
+				zeroLets += fmt.Sprintf("let %s := %s in\n", n, z)
+				continue
+			}
+		}
 		t.poison[o] = true
 		if n, known := t.names[o]; known {
 			escape = append(escape, n)
@@ -909,6 +955,7 @@ func (t *loopTr) parseAssign(x *ast.AssignStmt, target func(ast.Expr) (string, e
 		t.nilState[errObj] = 2
 	}
 	none, err := t.lstmts(rest, c)
+	none = zeroLets + none
 	t.restoreTrack(sv)
 	if err != nil {
 		return fail(err)
@@ -950,6 +997,11 @@ func (t *loopTr) parseAssign(x *ast.AssignStmt, target func(ast.Expr) (string, e
 
 // exprStmt: b.WriteString(s), b.WriteByte(c) on a local strings.Builder (a bytes accumulator)
 func (t *loopTr) exprStmt(x *ast.ExprStmt, rest []ast.Stmt, c *lctx) (string, error) {
+	if t.lp.core {
+		if s, ok, err := t.coreExprStmt(x, rest, c); ok || err != nil {
+			return s, err
+		}
+	}
 	recv, method, arg := builderWrite(t.cp.info, x)
 	if recv == nil {
 		return "", t.errAt(x, "expression statement (effect)")
@@ -1099,6 +1151,9 @@ func genParse() {
 		cp.wide, cp.errs = false, false
 		write(file, out)
 		fmt.Printf("parse: %s translated=%d skipped=%d\n", cp.tgt.dir, tr, sk)
+		if cp.tgt.core {
+			genCore(cp, lp, want)
+		}
 	}
 	if snapDir != "" {
 		if ents, err := os.ReadDir(filepath.Join(snapDir, "Parse")); err == nil {
